@@ -20,8 +20,10 @@ import (
 	"encoding/hex"
 	"fmt"
 	"os"
+	"runtime/debug"
 	"sort"
 	"strings"
+	"time"
 
 	"github.com/piotrnar/gocoin/client/common"
 	"github.com/piotrnar/gocoin/client/wallet"
@@ -93,6 +95,12 @@ type seen struct {
 
 // loadReal = wallet.LoadBalancesFromUtxo with the observing tick; abortAt = k > 0: the tick answers true at its k-th call.
 func (w *world) loadReal(abortAt int) (obs []seen, panicked string) {
+	return w.loadRealChg(abortAt, 0, nil)
+}
+
+// loadRealChg: like loadReal; chgAt = k > 0: at the k-th call of the tick (between record k and record k+1 of the scan)
+// `chg` runs — a config change made the way the WebUI does it, see cfgChange.
+func (w *world) loadRealChg(abortAt, chgAt int, chg func()) (obs []seen, panicked string) {
 	db := w.k.Ch.Unspent
 	if staRec == nil {
 		// get hold of the static record: decode any stored record once (mirrored in the model to keep the buffers in step)
@@ -110,6 +118,9 @@ func (w *world) loadReal(abortAt int) (obs []seen, panicked string) {
 		if staRec != nil {
 			obs = append(obs, seen{staRec.TxID, viewOf(staRec)})
 		}
+		if chgAt > 0 && len(obs) == chgAt && chg != nil {
+			chg()
+		}
 		return abortAt > 0 && len(obs) == abortAt
 	}
 	defer func() {
@@ -124,9 +135,19 @@ func (w *world) loadReal(abortAt int) (obs []seen, panicked string) {
 
 // modelLoad hands the observed records' bytes to the model and checks the per-record views against a stateless decode.
 func (w *world) modelLoad(obs []seen, min uint64, useMap uint32, abortAt int, want string) {
+	w.modelLoadChg(obs, min, useMap, abortAt, 0, 0, want)
+}
+
+// modelLoadChg: chgAt > 0 — the model's load with a config change (MinValue = chgMin, then Reset) after record chgAt
+// (oracle op `loadr`, Model.BalancesCfg.loadFromUtxoR); the reply then carries the minimum in force afterwards.
+func (w *world) modelLoadChg(obs []seen, min uint64, useMap uint32, abortAt, chgAt int, chgMin uint64, want string) {
 	db := w.k.Ch.Unspent
 	var sb strings.Builder
-	fmt.Fprintf(&sb, "loadb %s %d %d %d", fmtOf(w.compr), min, useMap, abortAt)
+	if chgAt > 0 {
+		fmt.Fprintf(&sb, "loadr %s %d %d %d %d %d", fmtOf(w.compr), min, useMap, abortAt, chgAt, chgMin)
+	} else {
+		fmt.Fprintf(&sb, "loadb %s %d %d %d", fmtOf(w.compr), min, useMap, abortAt)
+	}
 	residue := ""
 	var resDetail interface{}
 	for i, s := range obs {
@@ -148,8 +169,13 @@ func (w *world) modelLoad(obs []seen, min uint64, useMap uint32, abortAt int, wa
 		r.Hit("load:record:" + fmtOf(w.compr))
 	}
 	if rep := w.ask(sb.String()); rep != want {
-		w.tieFail("model-load", fmt.Sprintf("model LoadBalancesFromUtxo over the stored bytes answered %q, expected %q", rep, want), map[string]interface{}{"records": len(obs), "abortAt": abortAt})
-		return
+		if chgAt > 0 {
+			// reported after the property predicate has been evaluated on the real index (checkAll)
+			w.pendingModelLoad = fmt.Sprintf("model LoadBalancesFromUtxo with a config change after record %d answered %q, the real code gives %q", chgAt, rep, want)
+		} else {
+			w.tieFail("model-load", fmt.Sprintf("model LoadBalancesFromUtxo over the stored bytes answered %q, expected %q", rep, want), map[string]interface{}{"records": len(obs), "abortAt": abortAt})
+			return
+		}
 	}
 	w.pendingResidue, w.pendingResDetail = residue, resDetail
 }
@@ -198,9 +224,22 @@ func (w *world) enable(min uint64, useMap uint32, abortFirst bool) {
 			return
 		}
 	}
-	obs, pan := w.loadReal(0)
+	// a config change landing between two records of the running build (WebUI / TextUI: CFG overwritten, common.Reset())
+	race := !was && nrec > 0 && (w.forceRace || w.rng.Chance(1, 4))
+	chgAt, chgMin, chgUM, chgPanic := 0, uint64(0), uint32(0), ""
+	var chg func()
+	if race {
+		chgAt = 1 + w.rng.Intn(nrec)
+		chgMin, chgUM = w.pickRaceMin(min), mapChoices[w.rng.Intn(len(mapChoices))]
+		chg = func() { chgPanic = cfgChange(chgMin, chgUM) }
+	}
+	obs, pan := w.loadRealChg(0, chgAt, chg)
 	if pan != "" {
 		w.propFail("load-panic", "LoadBalancesFromUtxo panicked: "+pan, nil)
+		return
+	}
+	if chgPanic != "" {
+		w.tieFail("reset-panic", "common.Reset() panicked inside the harness: "+chgPanic, nil)
 		return
 	}
 	if !was {
@@ -211,15 +250,122 @@ func (w *world) enable(min uint64, useMap uint32, abortFirst bool) {
 		}
 	}
 	w.on = true
+	inForce := common.AllBalMinVal()
 	if was {
 		w.ask(fmt.Sprintf("enable %d %d", min, useMap)) // ignored by both
+	} else if race {
+		w.modelLoadChg(obs, min, useMap, 0, chgAt, chgMin, fmt.Sprintf("ok %d", inForce))
+		w.logf("enable min=%d usemap=%d records=%d; after record %d: CFG.AllBalances.MinValue=%d UseMapCnt=%d + common.Reset(); min in force afterwards %d", min, useMap, len(obs), chgAt, chgMin, chgUM, inForce)
+		r.Hit("enable:config-change-during-load")
+		switch {
+		case chgMin > min:
+			r.Hit("enable:config-change:min-raised")
+		case chgMin < min:
+			r.Hit("enable:config-change:min-lowered")
+		}
+		if n := w.countBetween(min, chgMin); n > 0 {
+			r.Hit("enable:config-change:outputs-between-old-and-new")
+		}
+		w.min = inForce // the predicate is evaluated with the minimum IN FORCE after the load
 	} else {
 		w.modelLoad(obs, min, useMap, 0, "ok")
 	}
-	w.logf("enable min=%d usemap=%d records=%d", min, useMap, len(obs))
+	if !race {
+		w.logf("enable min=%d usemap=%d records=%d", min, useMap, len(obs))
+	}
 	w.step++
 	w.checkAll("toggle")
+	if w.pendingModelLoad != "" {
+		w.tieFail("model-load", w.pendingModelLoad, nil)
+		w.pendingModelLoad = ""
+	}
+	if race && !w.failed && inForce != min && !softReported["min-in-force"] {
+		// not a property failure by itself (no output may lie between the two values): reported once, the search goes on
+		softReported["min-in-force"] = true
+		r.TieFail("min-in-force", fmt.Sprintf("the minimum in force after the build (%d) is not the one configured when it started (%d): a config change landing during the build was applied at once", inForce, min), w.replayDoc(nil))
+	}
 	w.flushResidue()
+}
+
+// cfgChange does what webui's p_cfg does after a config POST, from a goroutine of its own: lock, overwrite CFG, Reset().
+func cfgChange(newMin uint64, newUM uint32) (panicked string) {
+	done := make(chan struct{})
+	go func() {
+		defer close(done)
+		common.LockCfg()
+		defer common.UnlockCfg()
+		defer func() {
+			if x := recover(); x != nil {
+				panicked = fmt.Sprint(x)
+			}
+		}()
+		common.CFG.AllBalances.MinValue = newMin
+		common.CFG.AllBalances.UseMapCnt = newUM
+		common.Reset()
+	}()
+	<-done
+	return
+}
+
+// prepareCfg gives common.CFG the values common.Reset() reads sane contents (the harness never runs InitConfig), chosen
+// so that Reset leaves the process as it is: GC percent, lib/utxo's save parameters.
+func prepareCfg() {
+	gc := debug.SetGCPercent(100)
+	debug.SetGCPercent(gc)
+	common.CFG.Memory.GCPercTrshold = gc
+	common.CFG.Memory.MemoryLimitMB = 0
+	common.CFG.Memory.PurgeUnspendableUTXO = utxo.UTXO_PURGE_UNSPENDABLE
+	common.CFG.UTXOSave.SecondsToTake = uint(utxo.UTXO_WRITING_TIME_TARGET / time.Second)
+	common.CFG.UTXOSave.BlocksToHold = utxo.UTXO_SKIP_SAVE_BLOCKS
+	common.CFG.TXPool.MaxSizeMB = 100
+	common.CFG.TXPool.ExpireInDays = 7
+	common.CFG.TXPool.RejectRecCnt = 1000
+	common.CFG.TXPool.MaxRejectMB = 10
+	common.CFG.WebUI.AllowedIP = "127.0.0.1"
+	common.CFG.LastTrustedBlock = ""
+}
+
+// pickRaceMin: the new MinValue of a config change — mostly chosen so that outputs paying to pool addresses lie
+// between the old and the new threshold.
+func (w *world) pickRaceMin(old uint64) uint64 {
+	var vals []uint64
+	for _, rr := range w.cur {
+		for _, ou := range rr.Outs {
+			if ou != nil && w.byScript(ou.Script) != nil {
+				vals = append(vals, ou.Value)
+			}
+		}
+	}
+	sort.Slice(vals, func(i, j int) bool { return vals[i] < vals[j] })
+	for try := 0; try < 8; try++ {
+		var n uint64
+		if len(vals) == 0 || w.rng.Chance(1, 5) {
+			n = minChoices[w.rng.Intn(len(minChoices))]
+		} else if v := vals[w.rng.Intn(len(vals))]; v >= old {
+			n = v + 1 // raised above an output that qualifies under the old value
+		} else {
+			n = v // lowered to an output that does not qualify under the old value
+		}
+		if n != old {
+			return n
+		}
+	}
+	return old + 1
+}
+
+// countBetween: outputs paying to pool addresses whose value qualifies under exactly one of the two thresholds
+func (w *world) countBetween(a, b uint64) (n int) {
+	if a > b {
+		a, b = b, a
+	}
+	for _, rr := range w.cur {
+		for _, ou := range rr.Outs {
+			if ou != nil && ou.Value >= a && ou.Value < b && w.byScript(ou.Script) != nil {
+				n++
+			}
+		}
+	}
+	return
 }
 
 // diskRoundTrip: SaveBalances -> Disable -> LoadBalances must restore the same index (which must still be the projection).
